@@ -35,7 +35,7 @@ ASSUMPTIONS = [
     "field naming in errors: the message must contain the python name or the wire key of the nearest enclosing dataclass field",
     "wrong-typed leaves are only injected where cattrs does not coerce (int, float, datetime, date, Enum, nested dataclass); str/bool/bytes coercions are not demanded",
 ]
-BOUND = {"quick": "672 one-field roots + 640 two-field roots; 1884 histories; 2-node graphs", "thorough": "depth-3 trees (2720 roots) ; 3-node graphs with one slot"}
+BOUND = {"quick": "672 one-field roots + 640 two-field roots + container chains of depth 3-4 over a key-mapped dataclass; 1884 histories; 2-node graphs", "thorough": "depth-3 trees (2720 roots) ; 3-node graphs with one slot"}
 CHUNK = 8
 
 
@@ -52,7 +52,8 @@ LEAVES = {
     "bool": (bool, [(True, True), (False, False)], None),
     "bytes": (bytes, [("aGk=", b"hi"), ("", b"")], None),
     "datetime": (datetime.datetime, [("2020-01-02T03:04:05+00:00", datetime.datetime(2020, 1, 2, 3, 4, 5, tzinfo=UTC)),
-                                     ("2021-06-07T08:09:10+02:00", datetime.datetime(2021, 6, 7, 8, 9, 10, tzinfo=datetime.timezone(datetime.timedelta(hours=2))))], "not-a-date"),
+                                     ("2021-06-07T08:09:10+02:00", datetime.datetime(2021, 6, 7, 8, 9, 10, tzinfo=datetime.timezone(datetime.timedelta(hours=2)))),
+                                     ("2020-01-02T03:04:05.123456+00:00", datetime.datetime(2020, 1, 2, 3, 4, 5, 123456, tzinfo=UTC))], "not-a-date"),
     "date": (datetime.date, [("2020-01-02", datetime.date(2020, 1, 2)), ("1999-12-31", datetime.date(1999, 12, 31))], "nope"),
     "enum": (Color, [("red", Color.RED), ("blue", Color.BLUE)], "purple"),
     "uuid": (uuid.UUID, [("123e4567-e89b-12d3-a456-426614174000", uuid.UUID("123e4567-e89b-12d3-a456-426614174000")),
@@ -85,6 +86,18 @@ def cases(tier, seed):
     for km in KEYMAPS:
         for t in T:
             out.append({"kind": "law", "fields": [t], "keymap": km})
+    # container chains: a key-mapped dataclass under 3 and 4 stacked containers (every combination of list / dict / optional)
+    if tier == "quick":
+        for n in (3, 4):
+            for chain in itertools.product(("list", "dict", "opt"), repeat=n):
+                if any(a == "opt" and b == "opt" for a, b in zip(chain, chain[1:])):
+                    continue
+                for leaf in ("str", "datetime"):
+                    t = ("dc", (("leaf", leaf),))
+                    for c in reversed(chain):
+                        t = (c, t)
+                    for km in ("renamed", "none"):
+                        out.append({"kind": "law", "fields": [t], "keymap": km})
     T1 = trees(1)
     leaves = [("leaf", n) for n in LEAVES]
     for km in (("renamed", "casefold") if tier == "quick" else KEYMAPS):
@@ -156,13 +169,16 @@ def realise(t, keymap):
         return ty, list(menu), ([(bad, None)] if bad is not None else [])
     if kind in ("list", "dict", "opt"):
         ity, imenu, ibad = realise(t[1], keymap)
+        # the LAST menu entry of every container nests the last (richest) entry of its element type, so that a value of the
+        # innermost type is present however deep the chain is
+        first, rich = imenu[0], imenu[-1]
         if kind == "list":
-            menu = [([], [])] + [([j], [v]) for j, v in imenu[:1]] + ([([imenu[0][0], imenu[1][0]], [imenu[0][1], imenu[1][1]])] if len(imenu) > 1 else [])
+            menu = [([], []), ([rich[0]], [rich[1]])] + ([([first[0], rich[0]], [first[1], rich[1]])] if len(imenu) > 1 else [])
             return typing.List[ity], menu[:3], [([b], n) for b, n in ibad]
         if kind == "dict":
-            menu = [({}, {})] + [({"k": j}, {"k": v}) for j, v in imenu[:2]]
+            menu = [({}, {}), ({"k": first[0]}, {"k": first[1]})] + ([({"k": first[0], "l": rich[0]}, {"k": first[1], "l": rich[1]})] if len(imenu) > 1 else [])
             return typing.Dict[str, ity], menu[:3], [({"k": b}, n) for b, n in ibad]
-        menu = [(None, None)] + imenu[:2]
+        menu = [(None, None), first] + ([rich] if len(imenu) > 1 else [])
         return typing.Optional[ity], menu[:3], list(ibad)
     if kind == "dc":
         parts = [realise(x, keymap) for x in t[1]]
